@@ -36,7 +36,12 @@ type c03Lists struct {
 	// now), "pause-expired" (disabled until one hour ago).  The access lists
 	// are enforced whatever it is.
 	Protection string `json:"protection"`
+	// NoServerName: tls.server_name is empty.  A ClientID in the DoH path is
+	// honoured all the same; one in a TLS server name cannot be recognised.
+	NoServerName bool `json:"tls_server_name_empty"`
 }
+
+const c03ZoneNoName = "ClientID carried in the TLS server name / Host while no server name is configured"
 
 var c03ProtectionStates = []string{"on", "on", "on", "off", "paused", "paused", "pause-expired"}
 
